@@ -708,7 +708,7 @@ func (x *Sexp) Num() string {
 		return "-" + x.List[1].Num()
 	}
 	if len(x.List) == 3 && x.List[0].Atom == "/" {
-		return x.List[1].Num() + "/" + x.List[2].Num()
+		return strings.TrimSuffix(x.List[1].Num(), ".0") + "/" + strings.TrimSuffix(x.List[2].Num(), ".0")
 	}
 	return x.String()
 }
